@@ -241,6 +241,9 @@ def run(ctx, rep):
     rep.ob(not lf['undecided'], 'R08.2', 'lexer::is_whitespace', 'pure table', 'for every code point examined the lexer decides skip / no skip from the character alone (undecided: %s)' % [hex(c) for c in lf['undecided']][:5], 'src/lexer.rs')
     rep.ob(lf['skipped'] == PATTERN_WHITE_SPACE, 'R08.2', 'lexer::is_whitespace', 'Pattern_White_Space', 'whitespace is exactly the 11 code points: %s' % [hex(c) for c in lf['skipped']][:14], 'src/lexer.rs')
 
+    rep.rule('R08.8', 'the lexer primitives satisfy the contracts the table extraction assumes (peek, bump, offset, is_eof, new)')
+    check_lexer_primitives(ctx, rep, 'R08.8')
+
     # ---- R08.3 -------------------------------------------------------------------------------
     ok, why = slice_boundaries_ok(ctx)
     rep.ob(ok, 'R08.3', 'lexer::Tokenizer', 'slice offsets', why, 'src/lexer.rs')
@@ -475,6 +478,97 @@ def _skips_first(F, ps, model):
         else:
             kinds.add('other')
     return True if kinds == {'skip'} else (False if 'skip' not in kinds else None)
+
+
+def check_lexer_primitives(ctx, rep, rule):
+    """the table extraction treats peek / bump / offset / is_eof as *the next character / consume it / the byte position /
+    nothing left*; these contracts are read from their MIR (the same way CSA's emit primitives are, R02.8)"""
+    F = ctx.facts()
+    T = tables.TOK
+    tk = F.adt('lexer::Tokenizer')
+    fields = [f['name'] for f in tk['variants'][0]['fields']]
+    fi = {n: i for i, n in enumerate(fields)}
+
+    def self_field(v, name):
+        v = uncast(v)
+        return name in fi and v in (('ref', '_1.*.f%d' % fi[name]), ('field', ('deref', ('local', 1)), name))
+
+    # peek: a clone of the character iterator is advanced, self is not written
+    fn = F.fn(T + 'peek')
+    ps = [p for p in AbsInt(F, fn).run() if p.exit == 'return']
+    ok = len(ps) == 1
+    if ok:
+        p = ps[0]
+        names = [c[1] for c in p.calls if c[1] != 'drop']
+        cl = [c for c in p.calls if c[1].endswith('Clone>::clone') or c[1].endswith('::clone')]
+        nx = [c for c in p.calls if c[1].endswith(('Iterator>::next', 'Iterator::next'))]
+        r = p.env.get('_0')
+        ok = len(cl) == 1 and self_field(cl[0][2][0], 'chars') and len(nx) == 1 and r == ('call', nx[0][1], nx[0][2], nx[0][0]) and \
+            'Chars' in nx[0][1] and not [w for w in p.writes if w[1].startswith('_1.*')] and len(names) == 2
+        if ok:
+            a = nx[0][2][0]
+            ok = a[0] == 'ref' and p.env.get(a[1]) == ('call', cl[0][1], cl[0][2], cl[0][0])
+    rep.ob(ok, rule, fn.path, 'contract', 'peek() = the next character of a clone of the character iterator (whole characters, nothing consumed)', fn.loc())
+    # bump: chars.next(); on Some(c) pos += c.len_utf8(); returns that character
+    fn = F.fn(T + 'bump')
+    ps = [p for p in AbsInt(F, fn).run() if p.exit == 'return']
+    somes = 0
+    ok = bool(ps)
+    for p in ps:
+        nx = [c for c in p.calls if c[1].endswith(('Iterator>::next', 'Iterator::next')) and 'Chars' in c[1]]
+        if len(nx) != 1 or not self_field(nx[0][2][0], 'chars'):
+            ok = False
+            continue
+        r = simp(p.env.get('_0'))
+        posw = [w for w in p.writes if w[1] == '_1.*.f%d' % fi.get('pos', -1)]
+        if r and r[0] == 'agg' and r[2] == 'Some':
+            somes += 1
+            c = r[3][0]
+            got = c[0] == 'okval' and c[1] == ('call', nx[0][1], nx[0][2], nx[0][0])
+            adv = False
+            if len(posw) == 1:
+                v = uncast(posw[0][2])
+                if v[0] == 'field' and v[1][0] == 'binop':
+                    v = v[1]
+                s_ = show(v)
+                adv = v[0] == 'binop' and v[1] in ('Add', 'AddWithOverflow') and 'len_utf8' in s_ and '.pos' in s_
+            ok = ok and got and adv and len([w for w in p.writes if w[1].startswith('_1.*')]) == 1
+        else:
+            ok = ok and not posw
+    rep.ob(ok and somes >= 1, rule, fn.path, 'contract', 'bump() = the next character of the iterator itself, with pos advanced by its UTF-8 length', fn.loc())
+    # offset: the byte position
+    fn = F.fn(T + 'offset')
+    ps = [p for p in AbsInt(F, fn).run() if p.exit == 'return']
+    ok = len(ps) == 1 and not ps[0].calls and uncast(ps[0].env.get('_0')) == ('field', ('deref', ('local', 1)), 'pos')
+    rep.ob(ok, rule, fn.path, 'contract', 'offset() = pos', fn.loc())
+    # is_eof (when the lexer has it): offset() >= input.len()
+    if (T + 'is_eof') in F.fns:
+        fn = F.fn(T + 'is_eof')
+        ps = [p for p in AbsInt(F, fn).run() if p.exit == 'return']
+        ok = len(ps) == 1
+        if ok:
+            r = uncast(ps[0].env.get('_0'))
+            ok = r[0] == 'binop' and r[1] in ('Ge', 'Eq') and ('offset(' in show(r[2]) or '.pos' in show(r[2]))
+            if ok:
+                ln = uncast(r[3])
+                ok = ln[0] == 'call' and ln[1].endswith('::len') and bool(ln[2])
+                if ok:
+                    a = ln[2][0]
+                    a = ps[0].env.get(a[1][:-2], a) if a[0] == 'ref' and a[1].endswith('.*') else a
+                    ok = self_field(a, 'input')
+        rep.ob(ok, rule, fn.path, 'contract', 'is_eof() = offset() >= input.len()', fn.loc())
+    # the character iterator is the input's own: Tokenizer::new builds chars from the same text it stores
+    fn = F.fn('lexer::Tokenizer::<\'_>::new') if 'lexer::Tokenizer::<\'_>::new' in F.fns else next((f for f in F.all_fns if f.path.startswith('lexer::Tokenizer') and f.path.endswith('::new')), None)
+    ok = False
+    if fn is not None:
+        for p in AbsInt(F, fn).run():
+            r = p.env.get('_0')
+            if p.exit == 'return' and r and r[0] == 'agg' and len(r[3]) == len(fields):
+                vals = dict(zip(fields, r[3]))
+                ch = vals.get('chars')
+                is_in = lambda x: uncast(x) in (('local', 1), ('ref', '_1.*'))
+                ok = vals.get('pos') == ('int', 0, 'usize') and is_in(vals.get('input')) and ch[0] == 'call' and ch[1].endswith('::chars') and is_in(ch[2][0])
+    rep.ob(ok, rule, 'lexer::Tokenizer::new', 'contract', 'a tokenizer starts at position 0 with the character iterator of the text it stores', fn.loc() if fn else 'src/lexer.rs')
 
 
 def layout_facts(ctx):
